@@ -192,7 +192,7 @@ def fields(*l) -> str:
 
 # ---- canonicalisation of model output ----
 
-_COORD_RE = re.compile(r'\b(x|y|zc)=("[^,}|\]]*)')
+_COORD_RE = re.compile(r'\b(x|y|zc)=("(?:\\u\{[0-9a-fA-F]+\}|[^,}|\]])*)')
 
 
 def _unesc(tok: str) -> str:
